@@ -177,6 +177,24 @@ def run(ck):
     hn = facts.fn(CF + "HandleNewData")
     ck.require_response("N1.message-delivered", hn, E.m_calls("Ipc::BaseMultiQueue::pop"), True, ev_call(CTL + "syncCollapsed", arg={0: E.m_mentions("CollapsedForwardingMsg::xitIndex")}),
                         "syncCollapsed(msg.xitIndex)", term_kinds=("WhileStmt",))
+    ck.rule("Q1 a fetch that others share is not quick-aborted: CheckQuickAbortIsReasonable (asked when a store client leaves) answers true only with "
+            "storePendingNClients(entry) > 0 established false (no other local reader at all -- the leaving client is already deregistered), Store::Root()."
+            "transientReaders(*entry) false (no reader in another worker) and store_status == STORE_PENDING; otherwise a collapsed client's departure aborts the shared "
+            "fetch and the remaining clients each start their own origin request")
+    qa = facts.fn("CheckQuickAbortIsReasonable")
+    qfl = ck.flow(qa)
+    npc = E.M(lambda t: E.strip(t).get("k") == "call" and E.strip(t).get("f") == "storePendingNClients", "storePendingNClients(entry)")
+    yes = ev_return(E.m_const(1))
+    for st in ck.sites(qfl, yes, "return true", 1):
+        lo, hi = ck.interval(st, npc)
+        if hi is not None and hi <= 0:
+            ck.ok("Q1.no-abort-while-shared", st.where(), "quick abort only with no other local store client")
+        else:
+            ck.violation("Q1.no-abort-while-shared", "Q1|CheckQuickAbortIsReasonable|local-readers", st.where(),
+                         "CheckQuickAbortIsReasonable can answer true with storePendingNClients(entry) only known to be in [%s, %s]: the fetch is aborted while another "
+                         "(collapsed) client is still reading it" % (lo, hi), qfl.witness(st))
+    ck.require_fact("Q1.no-abort-while-shared", qfl, yes, E.M(lambda t: E.strip(t).get("k") == "call" and E.strip(t).get("f") == "Store::Controller::transientReaders", "transientReaders()"), False,
+                    "return true", why="(readers in other workers would lose the fetch)")
     ck.assume("'at most one origin request' over schedules is NOT decided: two requests racing before the first makePublic(), a writer collision (Transients::addWriterEntry throws) and "
               "entries that become private later each fetch on their own; the catch handler of syncCollapsed (anchorToCache() threw -> abort()) and IPC delivery are not modelled")
     ck.assume("byte identity and 'never truncated as complete' for collapsed clients rest on C01/C10 (replyStatus, copyFromShm M1) and are not re-claimed; who broadcasts on new data "
